@@ -488,7 +488,7 @@ static const char *grisu3_parse_double(const char *buf, size_t len, double *resu
     if (buf != end && *buf == '.') {
         ++buf;
         k = buf;
-        if (*buf < '0' || *buf > '9') {
+        if (buf == end || *buf < '0' || *buf > '9') {
             /* We don't accept numbers without leading or trailing digit. */
             return 0;
         }
